@@ -210,6 +210,7 @@ def run(ck):
                 sample=[l[:60] for l in lines[-min(12, stats["events"] + 6):]] if h < 1 else None)
     tensor_stream(ck, qr, numpy, m)
     complex_stream(ck, qr, numpy, m)
+    scripted_stream(ck, qr, numpy, m)
     model = ck.drive(DRIVER, lines, args=(N,))
     if model is not None:
         for l, a, b, k in zip(lines, impl, model, kinds):
@@ -383,3 +384,51 @@ def complex_stream(ck, qr, numpy, m):
         ck.case(("complex", Hc.tobytes(), nest, boom), nontrivial=True, kind="complex-hermitian-context", nested=nest, exception=boom, dim=n)
         for what, dev in bad:
             ck.fail("complex:%s" % what, "context of a complex Hermitian operator: %s (%.3g)" % (what, dev), inp)
+
+
+def scripted_stream(ck, qr, numpy, m):
+    """fixed scripts that every run contains (the random programs meet them only by chance): for every managed class an object
+    created outside whose FIRST access inside a (nested) context is a whole-array write, then a read; after leaving, the raw data
+    are the value written, expressed in the outermost basis"""
+    from quantarhei import eigenbasis_of, ReducedDensityMatrix, Hamiltonian
+    from quantarhei.qm import Operator
+    from quantarhei.qm.hilbertspace.operators import SelfAdjointOperator
+    rng = ck.rng
+    N = 3
+    def symm():
+        a = numpy.array([[rng.randint(-6, 6) / 4.0 for _ in range(N)] for _ in range(N)])
+        return (a + a.T) / 2.0
+    for depth in (1, 2):
+        for cname, ctor in (("Operator", lambda d: Operator(data=d)), ("SelfAdjointOperator", lambda d: SelfAdjointOperator(data=d)),
+                            ("Hamiltonian", lambda d: Hamiltonian(data=d)), ("ReducedDensityMatrix", lambda d: ReducedDensityMatrix(data=d))):
+            c1, c2 = SelfAdjointOperator(data=symm() + numpy.diag([0.0, 1.0, 2.5])), Hamiltonian(data=symm() + numpy.diag([0.0, 2.0, 3.0]))
+            obj = ctor(symm())
+            newv = symm()
+            inp = {"script": "first access inside the context is a whole-array write", "class": cname, "nesting": depth}
+            try:
+                with eigenbasis_of(c1):
+                    S1 = numpy.array(m.basis_transformations[-1], dtype=float)
+                    if depth == 2:
+                        with eigenbasis_of(c2):
+                            S2 = numpy.array(m.basis_transformations[-1], dtype=float)
+                            obj.data = newv.copy()
+                            back_in = numpy.array(obj.data).copy()
+                        St = S1 @ S2
+                    else:
+                        obj.data = newv.copy()
+                        back_in = numpy.array(obj.data).copy()
+                        St = S1
+                raw = numpy.asarray(obj._data)
+                want = St @ newv @ St.T
+                ck.case(("script", cname, depth), nontrivial=True, kind="scripted", cls=cname, nesting=depth)
+                if numpy.abs(back_in - newv).max() > 1e-12:
+                    ck.fail("script:read-after-write", "a value written inside a context is not read back inside it", inp, float(numpy.abs(back_in - newv).max()))
+                if numpy.abs(raw - want).max() > 1e-9 * max(1.0, numpy.abs(want).max()) or obj.get_current_basis() != 0:
+                    ck.fail("script:restore-after-write", "a value written inside a context (first access) is not expressed in the outermost basis after "
+                            "the context was left", inp, float(numpy.abs(raw - want).max()))
+            except Exception as e:
+                ck.fail("raises:script", "scripted context program raised %r" % (e,), inp)
+            if len(m.basis_stack) != 1 or m.basis_registered or m.current_basis_operator is not None:
+                ck.fail("script:bookkeeping", "bookkeeping not restored after a scripted program", inp)
+                m.basis_stack[:] = [0]; m.basis_transformations[:] = [1]; m.basis_registered.clear()
+                m._in_eigenbasis_of_context = False; m.current_basis_operator = None
